@@ -7,7 +7,8 @@ from typing import Dict, List, Optional, Set, Tuple
 
 from ..db import ProgramDB, FuncInfo, ClassInfo, AnalysisError, unparse, own_nodes, dotted
 from ..cfg import CFG, Node
-from ..facts import own_calls, call_attr, local_defs
+from ..facts import own_calls, call_attr, local_defs, bind_args, fn_params
+from .entries import is_eval_method_name
 from ..framework import inst, HOLDS, VIOLATION, UNDECIDED, INFO, Instance
 from ..abseval import AbsEval, State, const, TOP, TRUE, FALSE, NONE, fmt
 
@@ -329,4 +330,41 @@ def rule_quant_not_stripped(db: ProgramDB) -> List[Instance]:
                             f"restrict anything - flatten(an(entity(b.items, b.size > 1))) unnests the items of every b", line=strip_line))
     if n_arms == 0:
         raise AnalysisError("no place that replaces a quantifier by its selected variable found (the selection of a descriptor was confirmed by reading)")
+    return out
+
+
+# ---------------------------------------------------------------------------------- REQUEST-DELEGATED
+def rule_request_delegated(db: ProgramDB) -> List[Instance]:
+    """An evaluation method that hands its work to another evaluation method of the SAME node (the descriptor's shared
+    `_evaluate_`, the base class's `_evaluate__` through super(), a recursion on self) hands the request for false rows on as it got it:
+    entity(...) and set_of(...) are two descriptors with one implementation, and a sub-query on the left of `|` has to yield its
+    failed rows whichever of the two it is built from."""
+    out = []
+    se = db.cls("SymbolicExpression")
+    n = 0
+    for c in sorted([se] + se.all_subclasses(), key=lambda k: k.qualname):
+        for m in c.methods.values():
+            if m.cls is not c or not is_eval_method_name(m.name) or "yield_when_false" not in m.params:
+                continue
+            for call in own_calls(m):
+                f = call.func
+                if not (isinstance(f, ast.Attribute) and is_eval_method_name(f.attr)):
+                    continue
+                to_self = (isinstance(f.value, ast.Name) and f.value.id == "self") or (isinstance(f.value, ast.Call) and dotted(f.value.func) == "super")
+                if not to_self:
+                    continue
+                callee = c.lookup(f.attr)
+                if callee is None or "yield_when_false" not in callee.params:
+                    continue
+                n += 1
+                amap = bind_args(fn_params(callee), call)
+                given = amap.get("yield_when_false")
+                ok = given is not None and unparse(given) in ("yield_when_false", "self._yield_when_false_")
+                out.append(inst("REQUEST-DELEGATED", HOLDS if ok else VIOLATION, m, f"{m.short}[{unparse(call)[:50]}]",
+                                "the request for false rows is handed on unchanged" if ok else
+                                f"`{unparse(call)[:70]}` hands the work to another evaluation method of the same node without the request for false rows "
+                                f"({'default: no false rows' if given is None else unparse(given)}): an an(set_of(...)) sub-query on the left of `|` no longer yields its "
+                                f"failed rows, so solutions only the right operand accepts are lost (an(entity(...)) in the same place is fine)", line=call.lineno))
+    if n < 4:
+        raise AnalysisError(f"only {n} delegation(s) between evaluation methods of one node found")
     return out
